@@ -163,7 +163,7 @@ def cases(draw, max_pt):
 def many_structure_cases(draw):
     """A ruleset with 100-160 base structures (a list trained at high coverage) and the Markov structure at a drawn line of
     grammar.txt: 1, 50, 99-102, 128-130, last."""
-    k = draw(st.sampled_from([100, 101, 105, 130, 160]))
+    k = draw(st.sampled_from([100, 101, 105, 130, 160, 1500]))       # 1500 lines: grammar.txt of ~40 KB, the Markov line beyond any read buffer
     names = ['D1', 'D2', 'O1', 'K4', 'Y1', 'X1']
     vars_ = {}
     for nm in names:
@@ -183,8 +183,8 @@ def many_structure_cases(draw):
         if len(structs) >= k:
             break
     # one strictly decreasing list of weights; the Markov structure takes the weight of the drawn line (the list stays sorted)
-    ratio = draw(st.sampled_from([0.97, 0.99, 0.9]))
-    pos = min(draw(st.sampled_from([0, 49, 98, 99, 100, 101, 127, 128, 129, len(structs)])), len(structs))
+    ratio = draw(st.sampled_from([0.97, 0.99, 0.9])) if k < 1000 else 0.99
+    pos = min(draw(st.sampled_from([0, 49, 98, 99, 100, 101, 127, 128, 129, len(structs)] if k < 1000 else [300, 700, 1400, len(structs)])), len(structs))
     w = [ratio ** j_ for j_ in range(len(structs) + 1)]
     tot = sum(w)
     order = structs[:pos] + ['M'] + structs[pos:]
